@@ -54,6 +54,7 @@ class PoolModel:
 
     def __init__(self, eng, *a, **k):
         self.eng = eng
+        eng.event("pool-create")
 
     def __enter__(self):
         self.eng.event("pool-enter")
